@@ -184,6 +184,17 @@ def run(ctx):
             cases.append(("SS", 1, x, x, nt + 1, nt + 1))
             cases.append(("SS", 0, x, x, nt + 2, nt + 2))
         traces += tamper_traces(ctx, uni, mp, g, ps, cases, subst, "tamper")
+    # elements with LEADING ZERO bytes (nearly every element of i263 has a two-byte encoding 00 xx; half of those of the
+    # 65-bit field m65 start with 00): bytes removed from or added to the front or the end, on either or both sides - a
+    # decoder that pads or strips would make the ends agree on a message that was altered in flight
+    lz = [k for k, (n, f) in enumerate(TAMPERS) if n in ("drop first", "truncate", "prepend 00", "append 00", "as sent")]
+    for g in ["i263", "m65"]:
+        ps = "P" + g
+        uni.paramset(ps, grp=g)
+        q = uni.group(g).order()
+        cases = [(pairing, 1 + (ta + tb) % 3, ctx.rng.randrange(q), ctx.rng.randrange(q), ta, tb)
+                 for pairing in ("AB", "SS") for ta in lz for tb in lz if (ta, tb) != (0, 0) for _ in range(2 if g == "i263" else 4)]
+        traces += tamper_traces(ctx, uni, mp, g, ps, cases, [], "tamper-leading-zero")
     # one-sided: every short string to A on the 1-byte group
     uni.paramset("Pi11", grp="i11")
     strings = [b""] + [bytes([a]) for a in range(256)] + [bytes([a, b]) for a in range(256) for b in range(256)
